@@ -5,6 +5,7 @@ import (
 	"net"
 
 	"github.com/anacrolix/generics"
+	"github.com/anacrolix/torrent/iplist"
 
 	"github.com/anacrolix/dht/v2/int160"
 	"github.com/anacrolix/dht/v2/krpc"
@@ -143,4 +144,33 @@ func VerifC19_MustFail() {
 	m := krpc.Msg{Q: "ping", Y: "q", T: "aa", A: &krpc.MsgArgs{ID: verifIDInBucket(v.id, 0)}}
 	v.sock.deliver(verifEncode(m, 60), src)
 	verifAssert(v.sock.attempts == 0, "twin: with a blocklist installed nobody is answered (must fail)")
+}
+
+// The real iplist.IPList (range search of anacrolix/torrent/iplist, not the harness list): two ranges,
+// an arbitrary IPv4 source. A ping is answered exactly when the source lies in neither range, and a
+// blocked source leaves no trace.
+func VerifC19_RealRangeList() {
+	verifLimiterAlwaysGrants()
+	list := iplist.New([]iplist.Range{
+		// IPv4 ranges in the 4-byte form the list's own parser produces
+		{First: net.IP{10, 0, 0, 0}, Last: net.IP{10, 0, 0, 255}, Description: "a"},
+		{First: net.IP{192, 0, 2, 16}, Last: net.IP{192, 0, 2, 31}, Description: "b"},
+	})
+	v := verifStartServer(verifSrvOpt{noSecurity: true, blocklist: list})
+	src := verifUDPAddr4()
+	ip := src.IP
+	inA := ip[0] == 10 && ip[1] == 0 && ip[2] == 0
+	inB := ip[0] == 192 && ip[1] == 0 && ip[2] == 2 && ip[3] >= 16 && ip[3] <= 31
+	qid := verifIDInBucket(v.id, 0)
+	verifAssume(!qid.IsZero())
+	m := krpc.Msg{Q: "ping", Y: "q", T: "aa", A: &krpc.MsgArgs{ID: qid}}
+	v.sock.deliver(verifEncode(m, 60), src)
+	if inA || inB {
+		verifAssert(v.sock.attempts == 0 && v.s.NumNodes() == 0, "C19: a source inside a blocklist range gets no reply and no table entry")
+		verifReach("blocked")
+	} else {
+		verifAssert(len(v.sock.sent) == 1 && v.s.NumNodes() == 1, "C19: a source outside every range is served")
+		verifReach("served")
+	}
+	verifReach("end")
 }
